@@ -89,6 +89,24 @@ CLAIMED = {
               "dask result, values/dims/coords equal to the in-memory call and, for the stencil operators, to the geometric "
               "definition; chunked inner/outer shifts must raise NotImplementedError."),
         ref="4 C06, 3.4", technique="TLA+ state machine (DaskChunks) model-checked with TLC + TLC trace validation of real dask executions"),
+    "C07": dict(
+        text=("Overlap weights are specified as exact rationals with the homogeneous-cell choice left open; TLC shows for "
+              "every column (n <= 2, thorough 3) with target values and bins in 0..3 (0..4) that the kernel's weights are "
+              "admissible, non-negative, conserve every column inside the span and add up under merging of bins, and refutes "
+              "the pinned closed-interval rule; the weight matrix of the real kernel and of Grid.transform (target_data on "
+              "bounds or centres, several differing columns per call, both bin directions, dask chunking) is recovered with "
+              "unit vectors and every row validated by the TLA+ trace specification, with a linearity probe on random data."),
+        ref="4 C07, 3.5", note="numba is absent: kernels are executed through the pure-Python guvectorize stand-in in harness/numba_shim (self-checked against upstream's 85 transform tests in setup). " + TRUST,
+        technique="TLA+ spec (Conservative) model-checked with TLC + TLC trace validation of real weight matrices"),
+    "C08": dict(
+        text=("The piecewise-linear interpolant is specified as an exact rational; TLC checks direction independence, passage "
+              "through the data, boundedness by the segment ends and the masking rule on all columns of length <= 3; every "
+              "recorded column of the real kernel (exhaustive for length 2..3, theta in 0..4, all half-integer levels) and of "
+              "Grid.transform (linear and log, bare / 1-D / N-D targets with target_dim, mask_edges, bypass_checks, custom and "
+              "default suffix, chunking) is validated by the TLA+ trace specification including the names of the new "
+              "dimension and of the result."),
+        ref="4 C08, 3.5", note="numba is absent: kernels are executed through the pure-Python guvectorize stand-in in harness/numba_shim. " + TRUST,
+        technique="TLA+ spec (LinearInterp) model-checked with TLC + TLC trace validation of real transform calls"),
 }
 
 PENDING_REASON = "check not built yet in this session (planned; see DESIGN.md section 9 build order)"
